@@ -430,7 +430,16 @@ def minimize_lbfgsb(
                 ),
             )
         else:
-            return checkpoint
+            # same state as the checkpoint, but the termination report must be the one
+            # of this run (the checkpoint's message belongs to the previous arguments)
+            return OptimizeResult(
+                {
+                    **checkpoint,
+                    "status": istate.warnflag,
+                    "message": istate.task_str,
+                    "success": istate.is_success,
+                }
+            )
 
     # Compute the first gradient if no checkpoint provided
     if checkpoint is None:
